@@ -37,10 +37,13 @@ void vbi_proxy_msg_logger(int level, int clnt_fd, int errCode, const char *pText
 #define DEVOPEN 1        /* device 0 capturing when the message arrives */
 #endif
 
+static int tok_holder(int s) { return s == REQ_TOKEN_GRANTED || s == REQ_TOKEN_RECLAIM || s == REQ_TOKEN_RELEASE; }
+static int tok_has(int s) { return tok_holder(s) || s == REQ_TOKEN_GRANT; }      /* token assigned to this client (GRANT: indication not yet sent) */
+
 V_HARNESS(h_msg)
 {
-  PROXY_CLNT *a, *b; struct clnt_obs b0, b1, a0; struct dev_obs d0, d1; struct env_obs e0, e1;
-  uint32_t type, len; vbi_bool ok, taken = FALSE; int st0; unsigned i;
+  PROXY_CLNT *a, *b; struct clnt_obs b0, b1, a0, o0[3], o1[3]; struct dev_obs d0, d1; struct env_obs e0, e1;
+  uint32_t type, len, nflags; vbi_bool ok, taken = FALSE; int st0; unsigned i;
   V_INIT();
   w_init();
   w_device(DEVOPEN);
@@ -53,9 +56,16 @@ V_HARNESS(h_msg)
 #if MSGT == 99
   V_ASSUME(type != MSG_TYPE_CONNECT_REQ && type != MSG_TYPE_CLOSE_REQ && type != MSG_TYPE_SERVICE_REQ &&
            type != MSG_TYPE_CHN_TOKEN_REQ && type != MSG_TYPE_CHN_NOTIFY_REQ && type != MSG_TYPE_CHN_RECLAIM_CNF &&
-           type != MSG_TYPE_CHN_SUSPEND_REQ && type != MSG_TYPE_CHN_IOCTL_REQ && type != MSG_TYPE_DAEMON_PID_REQ);
+           type != MSG_TYPE_CHN_SUSPEND_REQ && type != MSG_TYPE_CHN_IOCTL_REQ && type != MSG_TYPE_DAEMON_PID_REQ &&
+           type != MSG_TYPE_DAEMON_PID_CNF);
 #else
   a->msg_buf.head.type = type = MSGT;
+#endif
+#if defined(STRICTV) && MSGT == 0      /* case split on the strictness field (used as array index): concrete value from the grid */
+  a->msg_buf.body.connect_req.strict = STRICTV;
+#endif
+#if defined(STRICTV) && MSGT == 5
+  a->msg_buf.body.service_req.strict = STRICTV;
 #endif
 #if MSGT == 0
   a->msg_buf.body.connect_req.buffer_count = W_CLBUF;           /* bound: the allocation loop runs once per buffer (up to 255 + clients) */
@@ -69,6 +79,8 @@ V_HARNESS(h_msg)
   st0 = a->state;
   w_assume_inv();
   obs_clnt(&a0, a); obs_clnt(&b0, b); obs_dev(&d0, 0); obs_env(&e0);
+  for (i = 0; i < NCL; i++) obs_clnt(&o0[i], W_cl[i]);
+  nflags = a->msg_buf.body.chn_notify_req.notify_flags;
 
   /* ---- proxyd.c:2413-2428 ---- */
   ok = vbi_proxyd_check_msg(&a->msg_buf, &a->endianSwap);
@@ -116,6 +128,12 @@ V_HARNESS(h_msg)
     }
     if (type != MSG_TYPE_CONNECT_REQ && type != MSG_TYPE_SERVICE_REQ && type != MSG_TYPE_CHN_IOCTL_REQ)
       V_ASSERT(e1.n_open == e0.n_open && e1.n_delete == e0.n_delete && e1.upd_calls == e0.upd_calls, "no_device_reconfiguration");
+    if (type == MSG_TYPE_SERVICE_REQ || type == MSG_TYPE_CHN_IOCTL_REQ || type == MSG_TYPE_CHN_SUSPEND_REQ) {
+      struct clnt_obs a1; obs_clnt(&a1, a);                     /* these touch the service table / nothing; the neighbouring words stay */
+      V_ASSERT(a1.buffer_count == a0.buffer_count && a1.chn_prio == a0.chn_prio && a1.prof_valid == a0.prof_valid && a1.prof_sub_prio == a0.prof_sub_prio &&
+               a1.min_duration == a0.min_duration && a1.is_completed == a0.is_completed && a1.cycle_count == a0.cycle_count &&
+               a1.last_start == a0.last_start && a1.last_duration == a0.last_duration && a1.client_flags == a0.client_flags, "service_msg_touches_only_service_state");
+    }
     if (type == MSG_TYPE_CLOSE_REQ)
       V_ASSERT(a->state == REQ_STATE_CLOSED && a->io.sock_fd == -1 && same_clnt(&b0, &b1), "close_req_closes");
     if (type == MSG_TYPE_DAEMON_PID_REQ)
@@ -125,6 +143,30 @@ V_HARNESS(h_msg)
                (a->state == REQ_STATE_WAIT_CLOSE && ntohl(a->msg_buf.head.type) == MSG_TYPE_CONNECT_REJ), "connect_reply");
     if (type == MSG_TYPE_SERVICE_REQ)
       V_ASSERT(a->state == REQ_STATE_FORWARD && (ntohl(a->msg_buf.head.type) == MSG_TYPE_SERVICE_CNF || ntohl(a->msg_buf.head.type) == MSG_TYPE_SERVICE_REJ), "service_reply");
+  }
+  /* ---- channel token: step relation (history of one step) ----
+   * holder = the token is (or is about to be) at the client: GRANTED, RECLAIM (reclaim pending), RELEASE (reclaim sent) */
+  for (i = 0; i < NCL; i++) {
+    int pre, post, newly;
+    obs_clnt(&o1[i], W_cl[i]);
+    pre = o0[i].token_state; post = (o1[i].state == REQ_STATE_CLOSED) ? REQ_TOKEN_NONE : o1[i].token_state;
+    if (i != ACT)
+      V_ASSERT(!tok_holder(pre) || tok_has(post), "token_taken_only_by_holders_own_action");
+    else if (tok_holder(pre) && !tok_has(post))
+      V_ASSERT(a->state == REQ_STATE_CLOSED || type == MSG_TYPE_CHN_TOKEN_REQ ||
+               (type == MSG_TYPE_CHN_NOTIFY_REQ && (nflags & (VBI_PROXY_CHN_RELEASE | VBI_PROXY_CHN_TOKEN))) ||
+               (type == MSG_TYPE_CHN_RECLAIM_CNF && pre == REQ_TOKEN_RELEASE), "token_given_up_only_by_return_release_confirm_close");
+    newly = (post == REQ_TOKEN_GRANT || post == REQ_TOKEN_GRANTED) && !tok_has(pre);
+    if (newly) {
+      unsigned j;
+      for (j = 0; j < NCL; j++)
+        if (j != i && o0[j].dev_idx == o0[i].dev_idx)                  /* nobody else still has it */
+          V_ASSERT(W_cl[j]->state == REQ_STATE_CLOSED || !tok_holder(W_cl[j]->chn_state.token_state), "grant_only_after_holder_gave_up");
+      V_ASSERT(o1[i].prof_valid && o1[i].chn_prio == VBI_CHN_PRIO_BACKGROUND, "grant_only_to_client_that_asked");
+      V_REACH("granted");
+    }
+    if (post == REQ_TOKEN_RETURNED)
+      V_ASSERT(pre != REQ_TOKEN_NONE, "channel_owner_only_after_grant");
   }
   w_assert_inv("msg");
   V_END();
@@ -256,5 +298,104 @@ V_HARNESS(h_loop)
   }
   if (alive == NCL) V_REACH("survived");
   w_assert_inv("loop");
+  V_END();
+}
+
+/* token step relation for one client (pre/post observation); actor_gave_up: the step is the holder's own return/release/confirm/disconnect */
+static void tok_step_check(const struct clnt_obs *o0, const struct clnt_obs *o1, int gone, int is_actor)
+{
+  int pre = o0->token_state, post = gone ? REQ_TOKEN_NONE : o1->token_state;
+  if (!is_actor)
+    V_ASSERT(!tok_holder(pre) || tok_has(post), "token_taken_only_by_holders_own_action");
+  if ((post == REQ_TOKEN_GRANT || post == REQ_TOKEN_GRANTED) && !tok_has(pre)) {
+    V_ASSERT(o1->prof_valid && o1->chn_prio == VBI_CHN_PRIO_BACKGROUND, "grant_only_to_client_that_asked");
+    V_REACH("granted");
+  }
+  if (post == REQ_TOKEN_RETURNED)
+    V_ASSERT(pre != REQ_TOKEN_NONE, "channel_owner_only_after_grant");
+}
+
+/* =====================================================================================================
+ * (3) token exclusivity, scheduler timer step: vbi_proxyd_channel_timer() (proxyd.c:2851-2856) with a symbolic
+ * clock from an arbitrary state of NCL clients satisfying the invariant.
+ * ===================================================================================================== */
+V_HARNESS(h_timer)
+{
+  struct clnt_obs o0[3], o1[3]; unsigned i;
+  V_INIT();
+  w_init();
+  w_device(DEVOPEN);
+  for (i = 0; i < NCL; i++) w_client((i == NCL - 1) ? BDEV : 0, 0);
+  w_link();
+  w_queue();
+  w_assume_inv();
+  for (i = 0; i < NCL; i++) obs_clnt(&o0[i], W_cl[i]);
+  proxy.chn_sched_alarm = FALSE;
+  vbi_proxyd_channel_timer();
+  for (i = 0; i < NCL; i++) { obs_clnt(&o1[i], W_cl[i]); tok_step_check(&o0[i], &o1[i], 0, 0); }
+  for (i = 0; i < NCL; i++) {
+    V_ASSERT(o1[i].state == o0[i].state && o1[i].p_sliced == o0[i].p_sliced && o1[i].all_services == o0[i].all_services, "timer_touches_only_scheduler_state");
+    if (o1[i].token_state != o0[i].token_state) V_REACH("rescheduled");
+  }
+  w_assert_inv("timer");
+  V_END();
+}
+
+/* =====================================================================================================
+ * (2) disconnect at any point: the connection of client ACT fails (recv() returns 0 or an error while select()
+ * reported it readable, or it is in the middle of a reply and send() fails); REAL vbi_proxyd_handle_client_sockets:
+ * vbi_proxyd_close, unlink, vbi_proxyd_update_services, vbi_proxyd_channel_update, free.  The other clients are not
+ * ready (DROP_IDLE=0: a reply of theirs is in flight) or idle with nothing queued (DROP_IDLE=1).
+ * Asserts: the connection is closed once and unlinked; its queue references are gone (queue invariant without it),
+ * the token it held is free for others, holders keep theirs, invariant.
+ * ===================================================================================================== */
+#ifndef DROP_IDLE
+#define DROP_IDLE 0
+#endif
+V_HARNESS(h_drop)
+{
+  fd_set rd, wr; struct clnt_obs o0[3], o1[3]; struct env_obs e0, e1; unsigned i; PROXY_CLNT *a; int a_tok, a_fd;
+  V_INIT();
+  w_init();
+  w_device(DEVOPEN);
+  for (i = 0; i < NCL; i++) {
+    PROXY_CLNT *c = w_client((i != ACT && i == NCL - 1) ? BDEV : 0, 0);
+    c->io.sock_fd = 10 + (int) i;
+    if (i != ACT) {
+      if (DROP_IDLE) V_ASSUME(c->io.writeLen == 0);
+      else V_ASSUME(c->io.writeLen != 0);
+      if (c->state == REQ_STATE_WAIT_CON_REQ) V_ASSUME(C19.now <= c->io.lastIoTime + SRV_IO_TIMEOUT);   /* no second drop by timeout in the same step */
+    }
+  }
+  w_link();
+  w_queue();
+  w_assume_inv();
+  a = W_cl[ACT]; a_tok = a->chn_state.token_state; a_fd = a->io.sock_fd;
+  if (DROP_IDLE) for (i = 0; i < NCL; i++) if (i != ACT) V_ASSUME(W_cl[i]->p_sliced == NULL);
+  /* the failure: first recv()/send() of the step fails for good */
+  V_ASSUME(C19.recv_ret[0] <= 0 && (C19.recv_ret[0] == 0 || C19.recv_err[0] >= 2));
+  V_ASSUME(C19.send_ret[0] < 0 && C19.send_err[0] >= 2);
+  C19.stream_len = 0;
+  for (i = 0; i < NCL; i++) obs_clnt(&o0[i], W_cl[i]);
+  obs_env(&e0);
+  FD_ZERO(&rd); FD_ZERO(&wr);
+  if (a->io.writeLen == 0) FD_SET(a_fd, &rd); else FD_SET(a_fd, &wr);     /* select(): only the failing connection is ready */
+  vbi_proxyd_handle_client_sockets(&rd, &wr);
+  obs_env(&e1);
+  W_gone[ACT] = 1;
+  V_ASSERT(!w_in_list(a), "dropped_connection_unlinked");
+  V_ASSERT(e1.n_close == e0.n_close + 1 && C19.last_closed_fd == a_fd, "dropped_connection_closed_once");
+  V_ASSERT(proxy.clnt_count == NCL - 1, "client_count");
+  for (i = 0; i < NCL; i++) {
+    if (i == ACT) continue;
+    V_ASSERT(w_in_list(W_cl[i]), "other_connections_stay");
+    obs_clnt(&o1[i], W_cl[i]);
+    tok_step_check(&o0[i], &o1[i], 0, 0);
+    V_ASSERT(o1[i].state == o0[i].state && o1[i].sock_fd == o0[i].sock_fd, "other_connections_open");
+    if (!DROP_IDLE) V_ASSERT(o1[i].writeLen == o0[i].writeLen && o1[i].writeOff == o0[i].writeOff && o1[i].p_sliced == o0[i].p_sliced, "other_io_untouched");
+  }
+  if (a_tok != REQ_TOKEN_NONE) V_REACH("holder_dropped");
+  if (o0[ACT].p_sliced != NULL) V_REACH("reader_dropped");
+  w_assert_inv("drop");
   V_END();
 }
